@@ -261,6 +261,8 @@ def analyze(events, recs, fam, bufsize=0):
         stats["dumps"] += 1
         return {"kind": "dump", "expect": F.leaves_below(root), "i": 0, "rt": None, "cd": cd}
 
+    xerr = next((r_.get("xerr", {}) for r_ in recs if r_["k"] == "END"), {})
+
     def next_rec():
         nonlocal ri
         r = recs[ri]
@@ -476,6 +478,12 @@ def analyze(events, recs, fam, bufsize=0):
                             if p["code"] == reply[1] and p["payload"] is not None and (
                                     p["payload"] == reply[2] or (reply[2].endswith(": ") and p["payload"].startswith(reply[2]))):
                                 ok = True
+                                # a (de)serializer error carries serde's text: the whole of it, as miniconf displays the error
+                                # (computed by the harness on a copy of the settings, outside the client)
+                                full = xerr.get((cp(req["topic"]), cp(req["payload"])))
+                                if reply[2].endswith(": ") and full is not None and full.startswith(reply[2]) and p["payload"] != full:
+                                    ok = False
+                                    reply = (reply[0], reply[1], full, reply[3])
                             elif len(reply) > 4 and p["code"] == "Error" and (p["payload"] or "").startswith("(De)serialization"):
                                 ok = True       # the value does not fit the transmit buffer
                     if not ok and not lost:
